@@ -12,8 +12,6 @@ open LyModel LyModel.Tree
 /-- a sibling key: schema id and (key leaf id, canonical value) pairs -/
 abbrev Key := Nat × List (Nat × Bytes)
 
-def keyPairs (ks : List DNode) : List (Nat × Bytes) := ks.map fun k => (k.sid, k.val)
-
 def kkey (S : Schema) (n : DNode) : Nat × List (Nat × Bytes) :=
   (n.sid,
     if S.isKind n.sid .leaflist then [(n.sid, n.val)]
